@@ -86,7 +86,11 @@ def is_generic(fn):
 def default_inlinable(prog, caller, callee, keep):
     if callee is None or callee.uid == caller.uid:
         return False
-    if callee.kind not in ("fn", "assoc_fn"):
+    if callee.kind == "closure":
+        # a closure of the caller that is called directly (`let same = |a, b| ..; same(x, y)`)
+        if callee.parent != caller.uid:
+            return False
+    elif callee.kind not in ("fn", "assoc_fn"):
         return False
     if callee.crate != caller.crate:
         return False
@@ -240,11 +244,16 @@ def inline(prog, fn, keep=None, depth=2, inlinable=None, _seen=None):
         d["locals"].extend(copy.deepcopy(callee.d["locals"]))
         args, dest, target = t[2], t[3], t[4]
         loc = t[6] if len(t) > 6 else [0, 0, False]
+        tupled = None
         if len(args) != callee.argc:
-            # untupled closure-style calls: do not inline
-            del d["locals"][loff:]
-            del d["origin"][boff:]
-            continue
+            # rust-call ABI: `Fn::call(&closure, (a, b))` against a body with parameters
+            # (env, a, b): the parameters are the fields of the argument tuple
+            if callee.kind == "closure" and len(args) == 2 and args[1][0] in ("m", "c") and callee.argc >= 1:
+                tupled = args[1][1]
+            else:
+                del d["locals"][loff:]
+                del d["origin"][boff:]
+                continue
         for cb in callee.d["blocks"]:
             ns = [_remap_stmt(s, loff) for s in cb["s"]]
             ct = cb["t"]
@@ -257,7 +266,13 @@ def inline(prog, fn, keep=None, depth=2, inlinable=None, _seen=None):
             else:
                 nt = _remap_term(ct, loff, boff)
             d["blocks"].append({"s": ns, "t": nt, "c": cb["c"]})
-        bind = [["=", [loff + j + 1, []], ["use", copy.deepcopy(a)], loc] for j, a in enumerate(args)]
+        if tupled is not None:
+            bind = [["=", [loff + 1, []], ["use", copy.deepcopy(args[0])], loc]]
+            for j in range(callee.argc - 1):
+                fld = [tupled[0], list(tupled[1]) + [["f", j, str(j)]]]
+                bind.append(["=", [loff + j + 2, []], ["use", ["m", fld]], loc])
+        else:
+            bind = [["=", [loff + j + 1, []], ["use", copy.deepcopy(a)], loc] for j, a in enumerate(args)]
         d["blocks"][b]["s"] = d["blocks"][b]["s"] + bind
         d["blocks"][b]["t"] = ["goto", boff]
         changed = True
